@@ -51,4 +51,12 @@ CLAIMED = {
              "non-thread-local std::atomic; nothing else modifies that counter.",
         note="assumes fewer than 2^64 - 1 first calls; trusts std::atomic RMW atomicity",
     ),
+    "C27": dict(
+        technique="ownership typestate + balance/must-pass rules + loop-exit guards + interval lower bound over clang CFGs of the pipeline implementation",
+        text="Decides the hand-off clauses on every path: each dequeued item is scheduled, run or discarded exactly once; outstanding_ covers an item from "
+             "before its hand-off to its guard's destructor (or its discard); a resource slot is held for exactly one stage invocation; item lambdas call "
+             "stage, completion callback (exactly once) and next stage (at most once, only for engaged results) in that order; wait() leaves only at zero "
+             "outstanding or on a captured exception; runner counts are >= 1.",
+        note="does not decide the enqueue/empty-queue race itself nor delivery inside moodycamel queues and the task set",
+    ),
 }
